@@ -191,6 +191,10 @@ class Sut:
                 "obs": [list(r.ev) for r in self.recs], "raw": raw.hex() if raw else ""}
 
 
+IPSC_WAKEUP_NO_TARGET = ("5a5a5a5a0000000042000501020000002222dddd555500004000000000000000000000000100020002000100000000000000"
+                         "000000000000ffffef082a00000000000000fb372300")
+
+
 class WSut(Sut):
     """the same concrete bursts fed through a real TransmissionWatcher (one Terminal per target radio id)"""
 
@@ -234,6 +238,10 @@ class WSut(Sut):
                     burst.timeslot = ts
                     if op == "burst":
                         burst.target_radio_id = tgt
+                    if op == "notarget" and self.n % 3 == 0:
+                        # a target-less burst of the transport's own kind: the IPSC wake-up frame documented in the library's
+                        # HyteraIPSCWakeup docstring (destination id 0) - dropped like every burst nobody is the target of
+                        burst = Burst.from_hytera_ipsc(bytes.fromhex(IPSC_WAKEUP_NO_TARGET))
                     res = self.watcher.process_burst(burst)
                     if res is not None:
                         returned = True
